@@ -41,3 +41,17 @@ pub broadcast axiom fn axiom_utf8_ascii(s: Seq<char>)
 pub broadcast axiom fn axiom_cp437_ascii(b: Seq<u8>)
     requires forall|i: int| 0 <= i < b.len() ==> b[i] < 0x80,
     ensures (#[trigger] cp437(b)).len() == b.len(), forall|i: int| 0 <= i < b.len() ==> cp437(b)[i] == b[i] as char;
+// TRUSTED (std): strict UTF-8 conversion and the byte views of strings - present so that code which swaps the lossy decoder
+// for these is decided rather than rejected as unsupported
+#[verifier::external_type_specification]
+#[verifier::external_body]
+pub struct ExFromUtf8Error(std::string::FromUtf8Error);
+pub uninterp spec fn utf8_err_bytes(e: std::string::FromUtf8Error) -> Seq<u8>;
+pub assume_specification [String::from_utf8] (v: Vec<u8>) -> (r: Result<String, std::string::FromUtf8Error>)
+    ensures r matches Ok(s) ==> utf8(s@) == v@, r matches Err(e) ==> utf8_err_bytes(e) == v@ && forall|s: Seq<char>| utf8(s) != v@;
+pub assume_specification [std::string::FromUtf8Error::into_bytes] (e: std::string::FromUtf8Error) -> (r: Vec<u8>)
+    ensures r@ == utf8_err_bytes(e);
+pub assume_specification [String::into_bytes] (s: String) -> (r: Vec<u8>)
+    ensures r@ == utf8(s@);
+pub assume_specification [<[u8]>::is_ascii] (s: &[u8]) -> (b: bool)
+    ensures b == (forall|i: int| 0 <= i < s@.len() ==> s@[i] < 128);
